@@ -190,6 +190,8 @@ func runC01(p *P, r *R) {
 	c01FreshMemory(p, r, fr)
 	c01Windows(p, r, H)
 	c01NoSpareSlices(p, r)
+	// R01.15 a chain handed to the peer through the queue is not recycled by the sender afterwards (shared with C09 R09.15)
+	borrow(p, r, "C09", runC09, map[string]string{"R09.15": "R01.15"}, nil)
 	abaRule(p, r, "R01.9")
 	// R01.10 nobody but the holder touches a slot header: a chain walker does not use a slice's header after it gave the slice back
 	linkReadBeforeRecycle(p, r, "R01.10")
